@@ -9,7 +9,7 @@ EXTENDS AnkoContainers, Json, SequencesExt
 
 CONSTANTS Depth, Family, Emit, Mutant
 
-Vars == {"a", "b", "c", "m", "n", "ta", "st", "s", "t", "tm", "sv"}
+Vars == {"a", "b", "c", "m", "n", "ta", "st", "s", "t", "tm", "sv", "su"}
 VARIABLES st, hist, last
 vars == <<st, hist, last>>
 
@@ -41,6 +41,7 @@ SliceOps ==
   \cup {Slice2("a", "a", 1, 2), Slice2("c", "b", 0, 1)}
   \cup {Slice3("b", "a", 0, 1, 2), Slice3("b", "a", 0, 1, 5), Slice3("b", "a", 1, 2, 2), Slice3("c", "b", 0, 1, 1), Slice3("b", "a", 1, 1, 0)}
   \cup {O("bindelem", "a", "sv", IntV(0), NilV, NilV, NilV, "", <<>>), O1("getvar", "sv")}
+  \cup {O("concat", "c", "b", NilV, NilV, StrV("ta"), NilV, "", <<>>), O("concat", "c", "b", NilV, NilV, StrV("a"), NilV, "", <<>>), O("tmake", "ta", "", IntV(1), NilV, NilV, NilV, "", <<>>)}
   \cup {O1("len", x) : x \in {"a", "b"}} \cup {InO(x, IntV(7)) : x \in {"a", "b"}} \cup {O1("callwrite", x) : x \in {"a", "b"}}
 MapOps ==
   {O1("mapnew", "m"), O1("mapnew", "n"), Alias("n", "m")}
@@ -67,6 +68,7 @@ TypedOps ==
         O("fieldmapget", "st", "", StrV("k"), NilV, NilV, NilV, "", <<>>), O("fieldmapset", "st", "", StrV("k"), NilV, NilV, IntV(5), "", <<>>),
         O("fieldmapset", "st", "", StrV("x"), NilV, NilV, StrV("s"), "", <<>>)}
   \cup {O("bindelem", "ta", "sv", IntV(0), NilV, NilV, NilV, "", <<>>), O("bindfield", "st", "sv", NilV, NilV, NilV, NilV, "A", <<>>), O("bindfield", "st", "sv", NilV, NilV, NilV, NilV, "B", <<>>), O1("getvar", "sv")}
+  \cup {O1("structnew2", "su"), O1("callget", "st"), O1("callget", "su"), O("fieldset", "su", "", NilV, NilV, NilV, IntV(5), "A", <<>>), O("fieldset", "su", "", NilV, NilV, NilV, StrV("z"), "B", <<>>)}
   \cup {O1("structnew", "st")} \cup {FieldSet(f, v) : f \in {"A", "B", "Z"}, v \in {IntV(5), StrV("z"), Flt19}} \cup {FieldGet(f) : f \in {"A", "B", "Z"}}
 Ops == CASE Family = "slice" -> SliceOps [] Family = "map" -> MapOps [] Family = "str" -> StrOps [] Family = "typed" -> TypedOps
          [] OTHER -> SliceOps \cup MapOps \cup StrOps \cup TypedOps
@@ -75,7 +77,9 @@ OpSeq == SetToSeq(Ops)          \* a fixed enumeration of the alphabet: historie
 
 \* Go's growth for the small slices of the model
 GoCap(n) == IF n = 0 THEN 1 ELSE 2 * n
-WithCap(o, s) == IF o.op \in {"append", "write"} /\ IsSlice(s.vars[o.x]) THEN [o EXCEPT !.cap = GoCap(s.vars[o.x].len)] ELSE o
+WithCap(o, s) == IF o.op \in {"append", "write"} /\ IsSlice(s.vars[o.x]) THEN [o EXCEPT !.cap = GoCap(s.vars[o.x].len)]
+                 ELSE IF o.op = "concat" /\ IsSlice(s.vars[o.y]) /\ IsSlice(s.vars[o.k.s]) THEN [o EXCEPT !.cap = 2 * (s.vars[o.y].len + s.vars[o.k.s].len)]
+                 ELSE o
 
 \* negative controls: wrong designs the properties below must refute
 StepM(s, o) ==
@@ -121,7 +125,7 @@ Obs(s) == <<[n \in Vars |-> ProjVar(s, n)], [n \in MapVars |-> IF s.vars[n].t \i
             IF s.vars["st"].t = "struct" /\ s.structs[s.vars["st"].r].M.t = "tmap" THEN s.maps[s.structs[s.vars["st"].r].M.r] ELSE <<>>>>
 \* an erroneous statement and a pure read leave everything unchanged
 ErrUnchanged == [][last'.res.k = "err" => Obs(st') = Obs(st)]_vars
-ReadsPure == [][last'.o.op \in {"read", "len", "in", "mapget", "fieldget", "fieldmapget", "getvar"} => Obs(st') = Obs(st)]_vars
+ReadsPure == [][last'.o.op \in {"read", "len", "in", "mapget", "fieldget", "fieldmapget", "getvar", "callget"} => Obs(st') = Obs(st)]_vars
 \* an in-range store changes exactly the addressed element -- in every variable whose window covers that cell, and in no other
 StoreExact == [][(last'.o.op = "write" /\ last'.res.k = "ok" /\ IsSlice(st.vars[last'.o.x]) /\ last'.o.i.i < st.vars[last'.o.x].len) =>
                    LET x == st.vars[last'.o.x]  cell == x.off + last'.o.i.i + 1 IN
